@@ -7,6 +7,7 @@
       the EndOfFile block, the start offsets of the maximal runs and the EndOfFile offset;
    3. the protocol follows from the per-id projections having the shape Start Content* [Eof].
    No axioms. *)
+From MLA Require Import Limit.
 From MLA Require Import Base Stream Blocks RoundTripBlocks RoundTripWriter Format FormatProofs.
 From Coq Require Import ZifyBool ZifyNat ZifyN.
 Open Scope N_scope.
